@@ -87,11 +87,14 @@ class UnusedTranslator:
             if stm.ast_type == ASTType.Rule and stm.head.ast_type in (
                 ASTType.TheoryAtom,
                 ASTType.Disjunction,
-                ASTType.HeadAggregate,
                 ASTType.Aggregate,
             ):
                 for elem in stm.head.elements:
                     self._add_usage(elem.condition)
+            if stm.ast_type == ASTType.Rule and stm.head.ast_type == ASTType.HeadAggregate:
+                for elem in stm.head.elements:  # the condition of such an element is a conditional literal
+                    self._add_usage(elem.condition.condition)
+                    self._add_usage_stm(elem.condition.literal)
             if stm.ast_type == ASTType.Rule and stm.head.ast_type in (
                 ASTType.Disjunction,
                 ASTType.Aggregate,
